@@ -31,7 +31,7 @@ var classes = [][]leafKind{
 	{{"[3]byte", []string{"%T{1, 2, 3}", "%T{}", "%T{255, 254, 253}"}}},                                                                                   // (3,1)
 	{{"int32", []string{"1", "-2", "1 << 30"}}, {"float32", []string{"1.5", "%T(rt.NegZero32)", "0"}}},                                                    // (4,4)
 	{{"int64", []string{"1", "-2", "1 << 62"}}, {"*int", []string{"nil", "&rt.IntA", "&rt.IntB"}}, {"float64", []string{"0", "%T(rt.NegZero)", "3e300"}}}, // (8,8)
-	{{"string", []string{`""`, `"a"`, `"a longer string value"`}}, {"any", []string{"nil", "[]int{1}", "(*int)(nil)"}}},                                           // (16,8)
+	{{"string", []string{`""`, `"a"`, `"a longer string value"`}}, {"any", []string{"nil", "[]int{1}", "(*int)(nil)"}}},                                   // (16,8)
 	{{"[]byte", []string{"nil", "%T{1}", "append(make(%T, 0, 8), 1, 2, 3)"}}},                                                                             // (24,8)
 }
 
